@@ -1,9 +1,11 @@
 package world
 
 import (
+	"bytes"
 	"context"
 	"errors"
 	"fmt"
+	"google.golang.org/protobuf/encoding/protowire"
 	"io"
 	"net/http"
 	"sort"
@@ -365,7 +367,35 @@ func (w *World) leave(ctx context.Context, o *CallObs, err error) {
 	o.H.CtxErr = ctx.Err()
 }
 
-func mkMsg(b []byte) *Msg { return &Msg{Value: append([]byte(nil), b...)} }
+// unknownMarker: a message whose value starts with this is sent with an
+// additional field the schema does not know (a sender built from a newer
+// schema); with the binary codec the receiver must find that field again.
+var unknownMarker = []byte("\x01UNK:")
+
+func unknownFieldFor(v []byte) []byte {
+	payload := append([]byte("field from a newer schema "), byte(len(v)), byte(len(v)>>8))
+	return protowire.AppendBytes(protowire.AppendTag(nil, 15, protowire.BytesType), payload)
+}
+
+func mkMsg(b []byte) *Msg {
+	m := &Msg{Value: append([]byte(nil), b...)}
+	if bytes.HasPrefix(b, unknownMarker) {
+		m.ProtoReflect().SetUnknown(unknownFieldFor(b))
+	}
+	return m
+}
+
+// recvValue is what the receiving side's API yielded: the value, marked if
+// the unknown field the sender attached did not arrive with it.
+func (w *World) recvValue(o *CallObs, m *Msg) []byte {
+	v := cloneBytes(m.Value)
+	if bytes.HasPrefix(v, unknownMarker) && o.Plan.Raw == nil && !w.Sc.Clients[o.Plan.Client].JSON {
+		if !bytes.Equal(m.ProtoReflect().GetUnknown(), unknownFieldFor(v)) {
+			return append(v, []byte("|unknown field lost")...)
+		}
+	}
+	return v
+}
 
 func cloneBytes(b []byte) []byte {
 	if b == nil {
@@ -394,6 +424,9 @@ func (e *ErrPlan) build(ctx context.Context) error {
 	}
 	if e.Plain {
 		return errors.New(e.Msg)
+	}
+	if e.Shared && e.built != nil {
+		return e.built
 	}
 	var ce *connect.Error
 	if e.NilErr {
@@ -424,6 +457,9 @@ func (e *ErrPlan) build(ctx context.Context) error {
 		for _, v := range vs {
 			ce.Meta().Add(k, v)
 		}
+	}
+	if e.Shared {
+		e.built = ce
 	}
 	return ce
 }
@@ -572,7 +608,7 @@ func (w *World) serveUnary(ctx context.Context, req *connect.Request[Msg]) (*con
 	if o == nil {
 		return nil, connect.NewError(connect.CodeInternal, errors.New("sim: unknown call"))
 	}
-	o.H.Recv = append(o.H.Recv, cloneBytes(req.Msg.Value))
+	o.H.Recv = append(o.H.Recv, w.recvValue(o, req.Msg))
 	o.H.Peer = "unary"
 	var err error
 	defer func() { w.leave(ctx, o, err) }()
@@ -604,7 +640,7 @@ func (w *World) serveClientStream(ctx context.Context, stream *connect.ClientStr
 	defer func() { w.leave(ctx, o, err) }()
 	w.runProg(ctx, o, hstream{recv: func() ([]byte, error) {
 		if stream.Receive() {
-			return cloneBytes(stream.Msg().Value), nil
+			return w.recvValue(o, stream.Msg()), nil
 		}
 		if e := stream.Err(); e != nil {
 			return nil, e
@@ -632,7 +668,7 @@ func (w *World) serveServerStream(ctx context.Context, req *connect.Request[Msg]
 	if o == nil {
 		return connect.NewError(connect.CodeInternal, errors.New("sim: unknown call"))
 	}
-	o.H.Recv = append(o.H.Recv, cloneBytes(req.Msg.Value))
+	o.H.Recv = append(o.H.Recv, w.recvValue(o, req.Msg))
 	var err error
 	defer func() { w.leave(ctx, o, err) }()
 	w.runProg(ctx, o, hstream{
@@ -660,7 +696,7 @@ func (w *World) serveBidi(ctx context.Context, stream *connect.BidiStream[Msg, M
 			if e != nil {
 				return nil, e
 			}
-			return cloneBytes(m.Value), nil
+			return w.recvValue(o, m), nil
 		},
 		send: func(b []byte) error { return stream.Send(mkMsg(b)) },
 		hdr:  stream.ResponseHeader,
@@ -824,7 +860,7 @@ func (w *World) runCall(t *core.Task, o *CallObs) {
 		res, err := client.CallUnary(ctx, req)
 		r.Err = err
 		if err == nil && res != nil {
-			r.HasMsg, r.Msg = true, cloneBytes(res.Msg.Value)
+			r.HasMsg, r.Msg = true, w.recvValue(o, res.Msg)
 			o.Recv = append(o.Recv, r.Msg)
 			o.RecvRaw = append(o.RecvRaw, res.Msg)
 			o.RawHeader, o.RawTrailer = res.Header(), res.Trailer()
@@ -855,7 +891,7 @@ func (w *World) runCall(t *core.Task, o *CallObs) {
 		res, err := stream.CloseAndReceive()
 		r.Err = err
 		if err == nil && res != nil {
-			r.HasMsg, r.Msg = true, cloneBytes(res.Msg.Value)
+			r.HasMsg, r.Msg = true, w.recvValue(o, res.Msg)
 			o.Recv = append(o.Recv, r.Msg)
 			o.RecvRaw = append(o.RecvRaw, res.Msg)
 			o.RawHeader, o.RawTrailer = res.Header(), res.Trailer()
@@ -898,7 +934,7 @@ func (w *World) runCall(t *core.Task, o *CallObs) {
 					r := OpRec{Op: "recv", Start: stepsNow(w.S), StartT: time.Now()}
 					ok := stream.Receive()
 					if ok {
-						r.HasMsg, r.Msg = true, cloneBytes(stream.Msg().Value)
+						r.HasMsg, r.Msg = true, w.recvValue(o, stream.Msg())
 						o.Recv = append(o.Recv, r.Msg)
 						o.RecvRaw = append(o.RecvRaw, proto.Clone(stream.Msg()).(*Msg))
 					} else {
@@ -966,7 +1002,7 @@ func (w *World) runCall(t *core.Task, o *CallObs) {
 						m, err := stream.Receive()
 						r.Err = err
 						if err == nil {
-							r.HasMsg, r.Msg = true, cloneBytes(m.Value)
+							r.HasMsg, r.Msg = true, w.recvValue(o, m)
 							o.Recv = append(o.Recv, r.Msg)
 							o.RecvRaw = append(o.RecvRaw, m)
 						} else {
@@ -992,7 +1028,7 @@ func (w *World) runCall(t *core.Task, o *CallObs) {
 					m, err := stream.Receive()
 					r.Err = err
 					if err == nil {
-						r.HasMsg, r.Msg = true, cloneBytes(m.Value)
+						r.HasMsg, r.Msg = true, w.recvValue(o, m)
 					}
 					w.rec(o, rcv, r)
 				case "closeresp":
